@@ -64,4 +64,5 @@ bc0d713 C10
 3a169e8 C19
 8026e10 C09
 ba336bb C19 C10
+2d0f122 C16
 LIST
